@@ -190,6 +190,8 @@ pub struct Ctx {
     pub verbose: bool,
     pub evaluations: u64,
     pub distinct: BTreeSet<u64>,
+    /// distinct cases counted rather than hashed (disjoint across shards by construction)
+    pub distinct_extra: u64,
     pub counters: BTreeMap<String, u64>,
     pub maxima: BTreeMap<String, u64>,
     pub samples: Vec<String>,
@@ -295,6 +297,7 @@ impl Ctx {
         s.push_str(&format!("\"tier\":{},", jstr(&self.tier)));
         s.push_str(&format!("\"evaluations\":{},", self.evaluations));
         s.push_str(&format!("\"exhaustive\":{},", self.exhaustive));
+        s.push_str(&format!("\"distinct_extra\":{},", self.distinct_extra));
         s.push_str(&format!("\"timed_out\":{},", self.timed_out));
         s.push_str(&format!("\"wall_s\":{:.3},", self.start.elapsed().as_secs_f64()));
         s.push_str("\"distinct\":[");
